@@ -353,3 +353,7 @@ add('c03-fill-to-clamp-dropped', ['C03'], 'fire', 'Container.fill_to',
 add('c15-unclipped-plate-inflow', ['C15'], 'fire', 'Recipe.get_container_flows',
     'np.maximum(vfunc(step.to[1].wells) - vfunc(step.to[0].wells), 0)', 'vfunc(step.to[1].wells) - vfunc(step.to[0].wells)',
     'negative inflow in the source wells of a same-plate transfer')
+
+add('c13-subslice-step-first', ['C13', 'C07'], 'fire', 'Slicer._process_sub_slice',
+    'start = start + sub_slice.start * step', 'start = start + sub_slice.start * step * (sub_slice.step or 1)',
+    'the start of a stepped sub-slice depends on the sub-slice step', module='pyplate/slicer.py')
